@@ -1,168 +1,7 @@
 (* driver.ml - runs the extracted Coq models on cases read from stdin, one per line,
    and prints one result per line.  Hand-written glue (trusted): parsing / printing only. *)
 open Model
-
-let rec pos_of_int n =
-  if n = 1 then XH else if n land 1 = 0 then XO (pos_of_int (n lsr 1)) else XI (pos_of_int (n lsr 1))
-let n_of_int n = if n = 0 then N0 else Npos (pos_of_int n)
-let rec int_of_pos = function XH -> 1 | XO p -> 2 * int_of_pos p | XI p -> 2 * int_of_pos p + 1
-let int_of_n = function N0 -> 0 | Npos p -> int_of_pos p
-
-(* hex <-> positive, bitwise, no size limit *)
-let hexval c =
-  match c with
-  | '0' .. '9' -> Char.code c - 48
-  | 'a' .. 'f' -> Char.code c - 87
-  | 'A' .. 'F' -> Char.code c - 55
-  | _ -> failwith "hex digit"
-
-let n_of_hex (s : string) : n =
-  (* most significant digit first *)
-  let acc = ref N0 in
-  String.iter
-    (fun c ->
-      let d = hexval c in
-      for i = 3 downto 0 do
-        let bit = (d lsr i) land 1 in
-        acc :=
-          (match !acc with
-          | N0 -> if bit = 1 then Npos XH else N0
-          | Npos p -> Npos (if bit = 1 then XI p else XO p))
-      done)
-    s;
-  !acc
-
-let hex_of_n (x : n) : string =
-  match x with
-  | N0 -> "0"
-  | Npos p ->
-      let bits = ref [] in
-      let rec go = function XH -> bits := 1 :: !bits | XO q -> bits := 0 :: !bits; go q | XI q -> bits := 1 :: !bits; go q in
-      (* least significant first when traversing; we cons so that after traversal the head is the MOST significant *)
-      go p;
-      let l = !bits in
-      let len = List.length l in
-      let padn = (4 - (len mod 4)) mod 4 in
-      let l = List.init padn (fun _ -> 0) @ l in
-      let b = Buffer.create 16 in
-      let rec emit = function
-        | a :: b' :: c :: d :: r ->
-            Buffer.add_char b "0123456789abcdef".[(a lsl 3) lor (b' lsl 2) lor (c lsl 1) lor d];
-            emit r
-        | [] -> ()
-        | _ -> failwith "emit"
-      in
-      emit l;
-      Buffer.contents b
-
-let z_of_hex (s : string) : z =
-  if String.length s > 0 && s.[0] = '-' then
-    (match n_of_hex (String.sub s 1 (String.length s - 1)) with N0 -> Z0 | Npos p -> Zneg p)
-  else match n_of_hex s with N0 -> Z0 | Npos p -> Zpos p
-
-let hex_of_z = function Z0 -> "0" | Zpos p -> hex_of_n (Npos p) | Zneg p -> "-" ^ hex_of_n (Npos p)
-
-(* ExtrOcamlString extracts Coq's [byte] to OCaml [char] *)
-let byte_of_int i = Char.chr i
-let int_of_byte b = Char.code b
-
-let bytes_of_hex (s : string) : char list =
-  if s = "_" then []
-  else begin
-    let n = String.length s / 2 in
-    List.init n (fun i -> byte_of_int ((hexval s.[2 * i] lsl 4) lor hexval s.[(2 * i) + 1]))
-  end
-
-let hex_of_bytes (l : char list) : string =
-  if l = [] then "_"
-  else begin
-    let b = Buffer.create (2 * List.length l) in
-    List.iter (fun x -> Buffer.add_string b (Printf.sprintf "%02x" (int_of_byte x))) l;
-    Buffer.contents b
-  end
-
-let coqstr (s : string) : char list = List.init (String.length s) (String.get s)
-let ocamlstr (l : char list) : string = String.concat "" (List.map (String.make 1) l)
-
-(* ---------- val text ---------- *)
-type tok = LP | RP | A of string
-
-let tokenize (s : string) : tok list =
-  let toks = ref [] in
-  let n = String.length s in
-  let i = ref 0 in
-  while !i < n do
-    (match s.[!i] with
-    | '(' -> toks := LP :: !toks; incr i
-    | ')' -> toks := RP :: !toks; incr i
-    | ' ' | '\t' | '\r' -> incr i
-    | _ ->
-        let j = ref !i in
-        while !j < n && s.[!j] <> '(' && s.[!j] <> ')' && s.[!j] <> ' ' do incr j done;
-        toks := A (String.sub s !i (!j - !i)) :: !toks;
-        i := !j)
-  done;
-  List.rev !toks
-
-let rec vl_of_list = function [] -> VNone | v :: r -> VCons (v, vl_of_list r)
-let rec list_of_vl = function VNone -> [] | VCons (v, r) -> v :: list_of_vl r
-
-let rec parse_val (ts : tok list) : val0 * tok list =
-  match ts with
-  | A "N" :: r -> (VNil, r)
-  | LP :: A "i" :: A h :: RP :: r -> (VInt (z_of_hex h), r)
-  | LP :: A "l" :: A h :: RP :: r -> (VLong (z_of_hex h), r)
-  | LP :: A "e" :: A h :: RP :: r -> (VEnum (n_of_hex h), r)
-  | LP :: A "b" :: A h :: RP :: r -> (VBool (h = "1"), r)
-  | LP :: A "y" :: A h :: RP :: r -> (VBytes (bytes_of_hex h), r)
-  | LP :: A "s" :: A h :: RP :: r -> (VStr (bytes_of_hex h), r)
-  | LP :: A "t" :: A h :: RP :: r -> (VTime (z_of_hex h), r)
-  | LP :: A "d" :: A h :: RP :: r -> (VDur (z_of_hex h), r)
-  | LP :: A "X" :: A w :: RP :: r -> (VBad (coqstr w), r)
-  | LP :: A "P" :: r ->
-      let v, r' = parse_val r in
-      (match r' with RP :: r'' -> (VPtr v, r'') | _ -> failwith "expected )")
-  | LP :: A "S" :: A name :: r ->
-      let vs, r' = parse_vals r in
-      (VStruct (coqstr name, vl_of_list vs), r')
-  | LP :: A "L" :: r ->
-      let vs, r' = parse_vals r in
-      (VList (vl_of_list vs), r')
-  | _ -> failwith "parse_val"
-
-and parse_vals ts =
-  match ts with
-  | RP :: r -> ([], r)
-  | _ ->
-      let v, r = parse_val ts in
-      let vs, r' = parse_vals r in
-      (v :: vs, r')
-
-let rec show_val (v : val0) : string =
-  match v with
-  | VNil -> "N"
-  | VInt z -> "(i " ^ hex_of_z z ^ ")"
-  | VLong z -> "(l " ^ hex_of_z z ^ ")"
-  | VEnum n -> "(e " ^ hex_of_n n ^ ")"
-  | VBool b -> if b then "(b 1)" else "(b 0)"
-  | VBytes b -> "(y " ^ hex_of_bytes b ^ ")"
-  | VStr b -> "(s " ^ hex_of_bytes b ^ ")"
-  | VTime z -> "(t " ^ hex_of_z z ^ ")"
-  | VDur z -> "(d " ^ hex_of_z z ^ ")"
-  | VBad w -> "(X " ^ ocamlstr w ^ ")"
-  | VPtr v -> "(P " ^ show_val v ^ ")"
-  | VStruct (n, vs) -> "(S " ^ String.concat " " (ocamlstr n :: List.map show_val (list_of_vl vs)) ^ ")"
-  | VList vs -> "(L" ^ String.concat "" (List.map (fun v -> " " ^ show_val v) (list_of_vl vs)) ^ ")"
-
-let val_of_string s =
-  let v, r = parse_val (tokenize s) in
-  if r <> [] then failwith "trailing tokens";
-  v
-
-let split1 s =
-  match String.index_opt s ' ' with
-  | None -> (s, "")
-  | Some i -> (String.sub s 0 i, String.sub s (i + 1) (String.length s - i - 1))
+open Common
 
 let show_dec r =
   match r with
